@@ -76,15 +76,13 @@ def gen(item, rng, tier):
         size = rng.choice([1, 2, 4, 8])
         path = rng.choice(['hub', 'hub', 'mem_a', 'insn'])
         if path != 'hub':
-            if size == 8 and path == 'insn':
-                size = 4
             addr &= ~(size - 1)
             if addr > 0xFFFFFFFF:
                 path = 'hub'
         # unique, attributable write values
         val = ((i + 1) * 0x0101010101010101 ^ rng.getrandbits(64)) & ((1 << (8 * size)) - 1)
         ops.append({'op': rng.choice(['r', 'w', 'w']), 'path': path, 'addr': addr, 'size': size, 'value': val})
-    return {'scenario': 'hub', 'style': style, 'devices': devs, 'ops': ops}
+    return {'scenario': 'hub', 'style': style, 'devices': devs, 'ops': ops, 'via_add_memory': bool(rng.getrandbits(1))}
 
 
 class Model:
@@ -141,12 +139,17 @@ def run(case):
     model = Model(case['devices'])
     rams = []
     for d in case['devices']:
-        ram = RAM(d['end'] - d['begin'])
+        if case.get('via_add_memory'):
+            # the library's own construction path (what from_memory_list() does for a configuration file)
+            arm.mem.add_memory('RAM', d['begin'], d['end'])
+            ram = arm.mem.memories[-1].mem
+        else:
+            ram = RAM(d['end'] - d['begin'])
+            arm.mem.memories.append(MemoryController(ram, d['begin'], d['end']))
         if d.get('fill'):
             f = _fill(d)
             ram.memory_array[0:len(f)] = f
         rams.append(ram)
-        arm.mem.memories.append(MemoryController(ram, d['begin'], d['end']))
     code = RAM(0x100)
     arm.mem.memories.append(MemoryController(code, CODE, CODE + 0x100))
     layout = '%s/%d' % (case['style'], len(case['devices']))
@@ -169,7 +172,7 @@ def run(case):
                 diff_at = None if same else next(x for x in range(e - b) if ram.memory_array[x] != mb[x])
             if not same:
                 k = diff_at
-                cls = 'wrong_bytes_written' if j == touched else 'spill_into_other_device'
+                cls = 'wrong_bytes_written' if (j == touched or touched == -1) else 'spill_into_other_device'
                 viol.append({'oracle': 'hub.model', 'site': op['path'] + ':' + op['op'], 'cls': cls, 'tick': idx,
                              'detail': 'device %d [%#x,%#x) byte +%d is %#x, model %#x after %s size %d at %#x' % (
                                  j, b, e, k, ram.memory_array[k] if k < len(ram.memory_array) else 0, mb[k], op['op'], op['size'], op['addr'])})
@@ -203,7 +206,11 @@ def run(case):
                 r.set(1, addr)
                 r.set(0, op['value'] & 0xFFFFFFFF)
                 load = op['op'] == 'r'
-                if size == 4:
+                if size == 8:
+                    r.set(2, op['value'] & 0xFFFFFFFF)
+                    r.set(3, (op['value'] >> 32) & 0xFFFFFFFF)
+                    w = A.ldsth('ldrd' if load else 'strd', 2, 1, 0)
+                elif size == 4:
                     w = A.ldst(load, 0, 1, 0)
                 elif size == 1:
                     w = A.ldst(load, 0, 1, 0, byte=1)
@@ -218,38 +225,52 @@ def run(case):
                                  'detail': 'LDR/STR at %#x size %d took an exception (mode %#x) with the MPU off' % (addr, size, r.cpsr.m)})
                     break
                 if load:
-                    got = r.get(0)
+                    got = r.get(0) if size != 8 else (r.get(2) | r.get(3) << 32)
         except Exception as e:
             name, site = M.exc_site(e)
             viol.append({'oracle': 'hub.model', 'site': site, 'cls': 'host_error:' + name, 'tick': idx,
                          'detail': '%r on %s %s size %d at %#x (%s)' % (e, path, op['op'], size, addr, pc)})
             break
         ticks += 1
-        # model step
-        if op['op'] == 'w':
-            if i is not None:
-                b, e, mb = model.devs[i]
-                val = op['value'] & ((1 << (8 * size)) - 1) if path != 'insn' else op['value'] & ((1 << (8 * size)) - 1) & 0xFFFFFFFF
-                data = val.to_bytes(size, 'little')
-                off = addr - b
-                if not straddle:
-                    mb[off:off + size] = data
-                else:
-                    # weak rule: the in-device tail may be old or new data; adopt what the device holds
-                    mb[off:e - b] = rams[i].memory_array[off:e - b]
-        else:
-            if i is None:
-                if got != 0:
-                    viol.append({'oracle': 'hub.model', 'site': path + ':r', 'cls': 'unmapped_read_nonzero', 'tick': idx,
-                                 'detail': 'read of %d bytes at unmapped %#x returned %#x' % (size, addr, got)})
-                    break
-            elif not straddle:
-                b, e, mb = model.devs[i]
-                want = int.from_bytes(mb[addr - b:addr - b + size], 'little')
-                if got != want:
-                    viol.append({'oracle': 'hub.model', 'site': path + ':r', 'cls': 'wrong_read_value', 'tick': idx,
-                                 'detail': 'read size %d at %#x (device %d, %s) = %#x, model %#x' % (size, addr, i, pc, got, want)})
-                    break
+        # model step.  LDRD/STRD is two word accesses (each with its own device lookup); everything else is one access
+        parts = [(addr, size, op['value'], got)]
+        if path == 'insn' and size == 8:
+            parts = [(addr, 4, op['value'] & 0xFFFFFFFF, None if got is None else got & 0xFFFFFFFF),
+                     ((addr + 4) & 0xFFFFFFFF, 4, (op['value'] >> 32) & 0xFFFFFFFF, None if got is None else (got >> 32) & 0xFFFFFFFF)]
+        stop = False
+        touched = []
+        for paddr, psize, pval, pgot in parts:
+            pi = model.find(paddr)
+            pstraddle = pi is not None and paddr + psize > model.devs[pi][1]
+            touched.append(pi)
+            if op['op'] == 'w':
+                if pi is not None:
+                    b, e, mb = model.devs[pi]
+                    data = (pval & ((1 << (8 * psize)) - 1)).to_bytes(psize, 'little')
+                    off = paddr - b
+                    if not pstraddle:
+                        mb[off:off + psize] = data
+                    else:
+                        # weak rule: the in-device tail may be old or new data; adopt what the device holds
+                        mb[off:e - b] = rams[pi].memory_array[off:e - b]
+            else:
+                if pi is None:
+                    if pgot != 0:
+                        viol.append({'oracle': 'hub.model', 'site': path + ':r', 'cls': 'unmapped_read_nonzero', 'tick': idx,
+                                     'detail': 'read of %d bytes at unmapped %#x returned %#x' % (psize, paddr, pgot)})
+                        stop = True
+                        break
+                elif not pstraddle:
+                    b, e, mb = model.devs[pi]
+                    want = int.from_bytes(mb[paddr - b:paddr - b + psize], 'little')
+                    if pgot != want:
+                        viol.append({'oracle': 'hub.model', 'site': path + ':r', 'cls': 'wrong_read_value', 'tick': idx,
+                                     'detail': 'read size %d at %#x (device %d, %s) = %#x, model %#x' % (psize, paddr, pi, pc, pgot, want)})
+                        stop = True
+                        break
+        if stop:
+            break
+        i = touched[0] if len(set(touched)) == 1 else -1
         if not check_all(op, idx, i):
             break
     stats['prints'] = M.env.print_count[0] - p0
